@@ -4,10 +4,14 @@
 //!
 //!   harness <component> gen <seed> <tier> <outdir>   writes <outdir>/ops.txt, gen_stats.json
 //!   harness <component> run <opsfile> <outdir>       writes <outdir>/impl.txt, oracle.txt
+mod checksum;
+mod fsmodel;
+mod path;
 mod rng;
 mod segments;
 mod tx;
 mod txgen;
+mod udp;
 mod util;
 
 use std::fs;
@@ -34,6 +38,10 @@ fn main() {
                 "segments" => segments::gen(seed, tier, &mut w, &mut stats),
                 "recv" => txgen::gen_recv(seed, tier, &mut w, &mut stats),
                 "send" => txgen::gen_send(seed, tier, &mut w, &mut stats),
+                "checksum" => checksum::gen(seed, tier, &mut w, &mut stats),
+                "path" => path::gen(seed, tier, &mut w, &mut stats),
+                "udp" => udp::gen(seed, tier, &mut w, &mut stats),
+                "fsmodel" => fsmodel::gen(seed, tier, &mut w, &mut stats),
                 _ => panic!("unknown component {comp}"),
             }
             w.flush().unwrap();
@@ -49,6 +57,10 @@ fn main() {
                 "segments" => segments::run(&ops, &mut out, &mut orc),
                 "recv" => tx::run(&ops, true, &mut out, &mut orc),
                 "send" => tx::run(&ops, false, &mut out, &mut orc),
+                "checksum" => checksum::run(&ops, &mut out, &mut orc),
+                "path" => path::run(&ops, &mut out, &mut orc),
+                "udp" => udp::run(&ops, &mut out, &mut orc),
+                "fsmodel" => fsmodel::run(&ops, &mut out, &mut orc),
                 _ => panic!("unknown component {comp}"),
             }
             out.flush().unwrap();
